@@ -77,6 +77,10 @@ class _FrameTracer(object):
             (ln > last and last > 0 and _is_with_line(fn, last))):
           return self
         sim._local_trace(frame, event, arg)
+    elif event == 'return':
+      sim = self.sim
+      if sim.watch_returns and frame.f_code.co_name in sim.watch_returns and not sim.shutting_down:
+        sim.event('leave', frame.f_code.co_name, frame.f_code.co_filename.rsplit('/', 1)[-1])
     return self
 
 
@@ -183,6 +187,7 @@ class Sim(object):
     self.no_raise_here = False
     self.sigint_info = None  # optional callable: extra facts logged when a SIGINT is delivered
     self.watch_calls = frozenset()  # function names whose entry is logged as ('enter', name)
+    self.watch_returns = frozenset()  # function names whose return / unwinding is logged as ('leave', name)
 
   # ---------------------------------------------------------------- tape use
   def _gap(self):
